@@ -368,21 +368,6 @@ func srvRunCase(o *common.Out, id string, nconn int, reqs []sreqCase, order []in
 			expect(rid)
 		}
 	}
-	// nothing else may be on any connection: a heartbeat's echo must be the very next frame
-	for c, p := range peers {
-		if err := p.send(reqSpec{seq: 999999, hb: true, ser: 1, payload: []byte("hb")}); err != nil {
-			fail("connection-closed", fmt.Sprintf("connection %d was closed by the server", c))
-			continue
-		}
-		f := p.next(3 * time.Second)
-		if f == nil {
-			fail("server-dead", fmt.Sprintf("connection %d no longer answers heartbeats", c))
-			continue
-		}
-		if v := viewFrame(f); !v.hb || v.seq != 999999 {
-			fail("extra-response", fmt.Sprintf("connection %d carries an extra frame: %s", c, showView(v, nil, -1)))
-		}
-	}
 	// a router handler is user code that runs for every request routed to it, also when it then fails to bind its
 	// arguments and also for one-way requests, which nothing else waits for: wait until it has been noted
 	for rid, q := range reqs {
@@ -402,6 +387,28 @@ func srvRunCase(o *common.Out, id string, nconn int, reqs []sreqCase, order []in
 				}
 				time.Sleep(200 * time.Microsecond)
 			}
+		}
+	}
+	// one-way requests are not waited for by anything above: give what they may (wrongly) have written a moment to arrive
+	for _, q := range reqs {
+		if q.ow && !q.hb {
+			time.Sleep(3 * time.Millisecond)
+			break
+		}
+	}
+	// nothing else may be on any connection: a heartbeat's echo must be the very next frame
+	for c, p := range peers {
+		if err := p.send(reqSpec{seq: 999999, hb: true, ser: 1, payload: []byte("hb")}); err != nil {
+			fail("connection-closed", fmt.Sprintf("connection %d was closed by the server", c))
+			continue
+		}
+		f := p.next(3 * time.Second)
+		if f == nil {
+			fail("server-dead", fmt.Sprintf("connection %d no longer answers heartbeats", c))
+			continue
+		}
+		if v := viewFrame(f); !v.hb || v.seq != 999999 {
+			fail("extra-response", fmt.Sprintf("connection %d carries an extra frame: %s", c, showView(v, nil, -1)))
 		}
 	}
 	// the handlers that ran
